@@ -13,19 +13,19 @@ PROP = 'C16'
 MANIFEST = dict(
     technique='Coq proof (induction over lookup sequences with a memo invariant; induction over sequences of environment additions; '
               'vm_compute over tables regenerated from /repo) about a code-shaped model; extracted-model vs. implementation correspondence',
-    text='Theorems in coq/theories/Properties/C16.v, for EVERY single-inheritance class graph, every pair of template sets and every '
-         'lookup sequence: a fresh lookup returns the nearest ancestor with a template, user set first (C16_lookup_nearest); with one '
-         'memo per search path every sequence equals fresh lookups (C16_cache_transparent); the shared memo of the unchanged code is '
-         'refuted by witness (finding F-LOOKUP-MEMO-CROSS) and proved transparent when one loader is absent or the built-in set is an '
-         'antichain (_partial), which a vm_compute fact shows for every shipped built-in set (C16_shipped_sets_cache_transparent); '
-         'enumeration order as an arbitrary permutation (C16_enum_order_indep); user shadows built-in in get_source; alias table '
-         'collision-free and disjoint from bundled-jinja and language tests; test = class membership of value or attribute data type '
-         '(refuted for the unchanged _field_is_instance: F-ATTR-TESTS-CONST-FALSE, + _partial); filters/tests never replaced and a '
-         'conflicting add raises, for every sequence of additions; reserved and language globals protected; jinja default globals '
-         'replaced by additional_globals (refuted: F-ENV-GLOBALS, + _partial).  Tie: Gen_Lookup.v is regenerated from /repo on every '
-         'run (pydsdl forest, template listings, jinja names, per-language environment names, RESERVED_GLOBAL_ sets, T2 translation of '
-         'the alias rule); the hand model is run (extracted OCaml) against the real DSDLTemplateLoader, DSDLCodeGenerator tests on '
-         'parsed pydsdl objects and CodeGenEnvironment on the same inputs.',
+    text='Theorems in coq/theories/Properties/C16.v, for EVERY single-inheritance class graph, template sets and lookup sequence: fresh lookup = '
+         'nearest ancestor with a template, user set first (C16_lookup_nearest); memo keyed by (walk, class) transparent for every sequence '
+         '(C16_cache_transparent, C16_real_cache_transparent); only exact <Class>.j2 names count; listing and lookup depend only on the SET of '
+         'file names (sort modelled, no NoDup premise); get_source over ordered roots; COMPOSITION lookup -> .name -> get_source against the '
+         'property (most specific class with a template in ANY root, file of the first root; chain ending at Any): C16_rendered_file_partial, '
+         'refuted for a nearer built-in passed over (F-LOOKUP-USER-GENERAL-FIRST) and for the chain walking past Any (F-LOOKUP-CHAIN-PAST-ANY, '
+         'conditional on a regenerated fact; C16_chain_ends_at_any once fixed); every class below the roots has its test and alias bound to it, '
+         'table = import-time dump of the registered tests, truth = isinstance (T2-translated _field_is_instance); filters/tests never replaced, '
+         'conflicting add raises, for every sequence; reserved/language globals protected; T2-translated gate keeps jinja default globals. '
+         'Pre-fix theorems: History/C16_history.v.  Tie: Gen_Lookup.v regenerated from /repo on every run (forest, listings, jinja names, '
+         'per-language environment names incl. js, RESERVED sets, TEMPLATE_SUFFIX, alias rule, _field_is_instance, gate, constructor order, '
+         'loader shape facts); shape pins for loader, environment functions and generator wiring; extracted model vs. real '
+         'DSDLTemplateLoader, real filter_type_to_template, real DSDLCodeGenerator.generate_all (marker templates), real tests and environments.',
     note='Trusted: Coq kernel; the C16 translator (tools/translators/gen_c16.py); extraction (ExtrOcamlBasic only) + OCaml driver; '
          'the hand models Gen/Lookup.v and Gen/LookupEnv.v are validated by correspondence, not verified against Python. Not covered: '
          'templates with the same stem in different sub-directories (resolved by the bundled loader\'s sorted listing), changes of the '
@@ -115,6 +115,22 @@ def enc_roots(case) -> str:
 
 
 CHAIN_ENDS_AT_ANY = False   # regenerated fact: the walk of the code stops at pydsdl.Any
+FACTS_UNKNOWN = False       # the loader has none of the pinned shapes: the two facts above are defaults, triggers are tried under every setting
+
+
+def under_any_shape(fn) -> bool:
+    global TOP_LEVEL_ONLY, CHAIN_ENDS_AT_ANY
+    if not FACTS_UNKNOWN:
+        return fn()
+    saved = (TOP_LEVEL_ONLY, CHAIN_ENDS_AT_ANY)
+    try:
+        for TOP_LEVEL_ONLY in (False, True):
+            for CHAIN_ENDS_AT_ANY in (False, True):
+                if fn():
+                    return True
+        return False
+    finally:
+        TOP_LEVEL_ONLY, CHAIN_ENDS_AT_ANY = saved
 
 
 def prop_chain(chains, cn: str) -> typing.List[str]:
@@ -494,7 +510,8 @@ def main(chk: core.Check, replay: typing.Optional[str] = None) -> int:
         from tools.translators import gen_c16
         d = gen_c16.data()
         ids = gen_c16.class_ids(d)
-        global TOP_LEVEL_ONLY, CHAIN_ENDS_AT_ANY
+        global TOP_LEVEL_ONLY, CHAIN_ENDS_AT_ANY, FACTS_UNKNOWN
+        FACTS_UNKNOWN = d.get('loader_shape') is None
         TOP_LEVEL_ONLY = bool(d.get('index_top_level_only'))
         CHAIN_ENDS_AT_ANY = bool(d.get('chain_ends_at_any'))
     except Exception as ex:  # translator failed closed: keep going with the oracle only
@@ -654,10 +671,11 @@ def main(chk: core.Check, replay: typing.Optional[str] = None) -> int:
             if got['res'][j] is not None and '/' in got['res'][j] and not live_subdir and iout[j].startswith('R:') \
                     and iout[j].split(':', 2)[2] == got['res'][j]:
                 continue   # F-LOOKUP-SUBDIR-NAME repaired by rendering the chosen sub-directory file itself: chosen == rendered
-            sh_t = shadow_trigger(chains, c, cn)
+            sh_t = under_any_shape(lambda: shadow_trigger(chains, c, cn))
             stats['shadow_trigger_lookups'] += sh_t
-            # the quirk-faithful model must reproduce the instance; if the model cannot be built at all, the trigger alone decides
-            same_as_model = (mout is None) or (model is not None and 'bad' not in model and model['out'][j] == iout[j])
+            # the quirk-faithful model must reproduce the instance; if the model cannot be built, or a proof obligation / pin is broken
+            # (the regenerated facts the model is instantiated with are then defaults), the trigger alone decides
+            same_as_model = (mout is None) or (not res.ok) or (model is not None and 'bad' not in model and model['out'][j] == iout[j])
             if sub_t and q_subdir and same_as_model and got['res'][j] is not None and '/' in got['res'][j]:
                 stats['known_subdir_instances'] += 1
             elif q_chain and same_as_model and chain_trigger(chains, c, cn):
@@ -849,7 +867,7 @@ def lookup_fails(c: dict, got: dict, chains, q_subdir: bool, q_shadow: bool, q_c
     return any(iout[j] != prop[j] and not (sub_t and got['res'][j] is not None and '/' in got['res'][j])
                and not (not q_subdir and chosen_is_rendered(j))
                and not (q_chain and chain_trigger(chains, c, cn))
-               and not (q_shadow and shadow_trigger(chains, c, cn)) for j, cn in enumerate(c['seq']))
+               and not (q_shadow and under_any_shape(lambda: shadow_trigger(chains, c, cn))) for j, cn in enumerate(c['seq']))
 
 
 def shrink_lookup(case: dict, chains, q_subdir: bool = False, q_shadow: bool = False, q_chain: bool = False) -> dict:
